@@ -69,7 +69,14 @@ class DPT2ByteFloat(DPTNumeric):
                 exponent += 1
                 knx_value /= 2
 
-            mantisse = round(knx_value) & 0x7FF
+            mantisse = round(knx_value)
+            # rounding must not leave the declared range (narrower sub types refuse to
+            # parse such a payload; 0x7FFF also is the code for invalid data)
+            if (mantisse << exponent) > cls.value_max * 100:
+                mantisse -= 1
+            elif (mantisse << exponent) < cls.value_min * 100:
+                mantisse += 1
+            mantisse &= 0x7FF
             msb = exponent << 3 | mantisse >> 8
             if knx_value < 0:
                 msb |= 0x80
